@@ -866,17 +866,25 @@ pub struct FormatOptions {
 pub fn format(input: &str, opts: &FormatOptions) -> Result<String, SnippetBuilder> {
 	let (parsed, errors) = jrsonnet_rowan_parser::parse(input);
 	if !errors.is_empty() {
-		let mut builder = hi_doc::SnippetBuilder::new(input);
+		// Annotation needs at least one byte to point to
+		let mut builder = hi_doc::SnippetBuilder::new(if input.is_empty() { " " } else { input });
 		for error in errors {
 			builder
 				.error(hi_doc::Text::fragment(
 					format!("{:?}", error.error),
 					Formatting::default(),
 				))
-				.range(
-					error.range.start().into()
-						..=(usize::from(error.range.end()) - 1).max(error.range.start().into()),
-				)
+				.range({
+					// Errors at the end of input have an empty range positioned after the last
+					// byte, annotation should stay inside of the text.
+					let last = input.len().saturating_sub(1);
+					let start = usize::from(error.range.start()).min(last);
+					let end = usize::from(error.range.end())
+						.saturating_sub(1)
+						.max(start)
+						.min(last);
+					start..=end
+				})
 				.build();
 		}
 		// let snippet = builder.build();
